@@ -288,12 +288,15 @@ func copyDBIntoSQLite(source, destination *sql.DB,
 		return err
 	}
 	defer tx.Rollback()
-	deleteProfilesQueryStr := fmt.Sprintf("DELETE from user_profile ")
-	if rows, err := destination.Query(deleteProfilesQueryStr); err != nil {
-		logger.Printf("err='%s'", err)
-		return err
-	} else {
-		rows.Close()
+	// The deletes MUST be part of the transaction: a failed copy leaves the
+	// destination as it was, a successful one makes it a mirror (including
+	// deletions) of the source
+	for _, deleteStmt := range []string{"DELETE from user_profile",
+		"DELETE from expiring_signed_user_data"} {
+		if _, err := tx.Exec(deleteStmt); err != nil {
+			logger.Printf("err='%s'", err)
+			return err
+		}
 	}
 	stmtText := saveUserProfileStmt[destinationType]
 	stmt, err := tx.Prepare(stmtText)
